@@ -43,10 +43,10 @@ CHECKS.update({
    "TLC checks ReapEqualsDirect on every reaping transition over grids/case lists x batchsize/num_batches x shuffle placement (constructor, sow call) and histories of grow(i)/Crop.grow(i)/Crop.grow(set)/grow_missing/reload/re-sow; every emitted history is replayed on a real crop in a temp directory and the reaped nested result compared position by position; the pinned sow_cases ordering (F3) is reproduced as a TLC counterexample on every run.", _CROP_NOTE),
  "C06": ("Crop.tla + Sweep.tla", "DESIGN.md §4",
    "same TLA+ crop model with farmer kinds and store delivery; replayed reaps compared with the model's value map, the farmer's last result, the data file and a direct run of the same runner",
-   "For Runner/Harvester/Sampler crops every replayed reap is compared with the spec's value map at every point/row, must be recorded as last_ds/last_df, must leave the harvester file holding exactly the delivered settings, and a complete reap must be identical (Dataset) / equal (DataFrame) to a direct run of the same runner (whose labelling C03 validates against Sweep.tla).", _CROP_NOTE),
+   "For Runner/Harvester/Sampler crops every replayed reap is compared with the spec's value map at every point/row, must be recorded as last_ds/last_df, must leave the harvester file holding exactly the delivered settings, and a complete reap must be identical (Dataset) / equal (DataFrame) to a direct run of the same runner (whose labelling C03 validates against Sweep.tla). Histories that change the farmer's constants in mid-campaign and re-sow (each result tagged with the constants version of its batch file; action properties GrowRefreshes and FullGrowLeavesNothingStale) and Runner crops grown by worker pools are included.", _CROP_NOTE),
  "C07": ("Crop.tla", "DESIGN.md §4",
    "TLA+ model of choose_batch_settings and the Sower's cutting, Partition invariant checked by TLC for every (N, batchsize | num_batches); every emitted partition compared with real batch files",
-   "TLC checks the Partition invariant for every N<=24 (thorough 48) x every batchsize in 1..N+1 / num_batches in 1..N+2, for grids and case lists, shuffled or not; each emitted partition is compared with the batch files a real sow writes (as sequences of settings with exactly the direct run's keyword arguments) and with the numbers the crop reports before and after reload.", _CROP_NOTE),
+   "TLC checks the Partition invariant for every N<=24 (thorough 48) x every batchsize in 1..N+1 / num_batches in 1..N+2, for grids and case lists, shuffled or not; each emitted partition is compared with the batch files a real sow writes (as sequences of settings with exactly the direct run's keyword arguments) and with the numbers the crop reports before and after reload; re-sows with other constants while finished batches exist must rewrite every batch file.", _CROP_NOTE),
  "C08": ("Crop.tla", "DESIGN.md §4",
    "TLA+ model of progress (ProgressIsTruth, OnlyOwnResult, ResowKeepsResults, FailedGrowWritesNothing) checked by TLC; simulated operation histories replayed with all four progress queries and directory listings compared after every call",
    "TLC checks the progress invariants and frame conditions over all reachable states of crops with 1..4 (8) batches; simulated histories (sow, re-sow, grow i, grow subset, grow_missing, failing function, repair, delete, corrupt, check_bad, reload) are replayed on real crops and num_sown_batches, num_results, missing_results(), is_ready_to_reap(), batches/ and results/ listings and the outcome of each call are compared after every step; progress queries are also interleaved with growers at file-operation level (CropFS.tla), liveness (EventuallyReady under fairness) is model-checked, and the repository's own crop tests are recorded by a pytest plugin and validated as traces against CropTrace.tla.", _CROP_NOTE),
